@@ -335,6 +335,102 @@ def py_uuid4(v):
     return v
 
 
+# ------------------------------------------------------------------------------------------------- replayed traces
+WRITE_TRACE = """
+import json, pickle, sys
+sys.path.insert(0, sys.argv[1])
+from data.alibaba_loader import Task
+dags = json.load(sys.stdin)
+out = {}
+for job, tasks in dags.items():
+    out[job] = [Task(name=n, job=job, instances=1, status="Terminated", start_time=0, end_time=0, expected_duration=d,
+                     actual_duration=d, cpu_requested=c, cpu_usage=c, mem_requested=0.1, mem_usage=0.1) for (n, d, c) in tasks]
+pickle.dump(out, open(sys.argv[2], "wb"))
+"""
+
+
+def gen_trace(rng):
+    """a small Alibaba-style trace: task names are <type><id>_<parent id>_..; DAGs with joins, listed in a random order (as
+    in the shipped traces a task may be listed before its parents)"""
+    dags = {}
+    for j in range(rng.randint(2, 4)):
+        n = rng.randint(3, 6)
+        tasks = []
+        for i in range(1, n + 1):
+            parents = sorted(rng.sample(range(1, i), min(i - 1, rng.choice([0, 1, 2, 2, 3])))) if i > 1 else []
+            name = "%s%d%s" % (rng.choice("MRJ"), i, "".join("_%d" % q for q in parents))
+            tasks.append([name, rng.choice([20, 30, 40, 50, 60, 80]), rng.choice([50.0, 100.0])])
+        rng.shuffle(tasks)
+        dags["j_%d" % (j + 1)] = tasks
+    return dags
+
+
+def replay_stream(ctx, n):
+    """S-repro-replay: `--execution_mode=replay --replay_trace=alibaba` on generated traces, two fresh processes with
+    different hash salts; the traces must be identical (wall-clock field masked)."""
+    import tempfile
+    base = tempfile.mkdtemp(prefix="c09replay_", dir=core.BUILD if os.path.isdir(core.BUILD) else None)
+    ran = conclusive = 0
+    normal, minrows = 0, None
+    try:
+        for k in range(n):
+            dags = gen_trace(ctx.rng)
+            d = os.path.join(base, "t%d" % k)
+            os.makedirs(d)
+            tp = os.path.join(d, "trace.pkl")
+            w = subprocess.run([core.PY, "-c", WRITE_TRACE, core.REPO, tp], input=json.dumps(dags), capture_output=True, text=True,
+                               timeout=120)
+            if w.returncode != 0:
+                ctx.broken.append({"kind": "correspondence", "name": "S-repro-replay (cannot write a trace with data.alibaba_loader.Task)",
+                                   "detail": w.stderr[-400:]})
+                return
+            wk = os.path.join(d, "workers.yaml")
+            open(wk, "w").write("- name: WorkerPool_1\n  workers:\n      - name: Worker_1_1\n        resources:\n"
+                                "            - name: Slot_1\n              quantity: %d\n" % ctx.rng.choice([4, 8]))
+            seed = ctx.rng.randrange(1, 10 ** 6)
+            flags = ["--execution_mode=replay", "--replay_trace=alibaba", "--workload_profile_path=" + tp,
+                     "--worker_profile_path=" + wk, "--scheduler=%s" % ctx.rng.choice(["EDF", "FIFO", "LSF"]), "--scheduler_runtime=0",
+                     "--runtime_variance=%d" % ctx.rng.choice([0, 20]), "--random_seed=%d" % seed,
+                     "--override_release_policy=poisson", "--override_poisson_arrival_rate=0.01",
+                     "--override_num_invocation=%d" % ctx.rng.randint(3, 6), "--min_deadline_variance=50",
+                     "--max_deadline_variance=150", "--log_level=info", "--csv_file_name=out.csv", "--log_file_name=log.txt"]
+            outs = []
+            hs = ctx.rng.sample(range(1, 4000), 3)
+            for h in hs:
+                rd = os.path.join(d, "run%d" % h)
+                os.makedirs(rd)
+                env = dict(os.environ, PYTHONHASHSEED=str(h), PYTHONPATH=core.REPO)
+                try:
+                    pr = subprocess.run([core.PY, os.path.join(core.REPO, "main.py")] + flags + ["--log_dir=" + rd], cwd=rd, env=env,
+                                        capture_output=True, text=True, timeout=WALL)
+                except subprocess.TimeoutExpired:
+                    outs.append(None)
+                    continue
+                rows = canon_rows(open(os.path.join(rd, "out.csv")).readlines(), rd) if os.path.exists(os.path.join(rd, "out.csv")) else []
+                outs.append({"rc": pr.returncode, "rows": rows, "error": last_error(pr.stderr) if pr.returncode else None})
+            ran += 1
+            if any(o is None for o in outs):
+                continue
+            conclusive += 1
+            normal += outs[0]["rc"] == 0
+            minrows = len(outs[0]["rows"]) if minrows is None else min(minrows, len(outs[0]["rows"]))
+            for o, h in zip(outs[1:], hs[1:]):
+                if o["rc"] != outs[0]["rc"] or o["rows"] != outs[0]["rows"]:
+                    ctx.violation("replay_t%d" % k, {
+                        "stream": "S-repro-replay", "trace": dags, "flags": [f for f in flags if "profile_path" not in f],
+                        "hashseeds": [hs[0], h],
+                        "what": "two fresh processes replaying the same Alibaba-style trace with the same flags and --random_seed wrote "
+                                "different traces (wall-clock field masked)",
+                        "first_difference": first_diff(outs[0]["rows"], o["rows"])})
+                    break
+    finally:
+        import shutil
+        shutil.rmtree(base, ignore_errors=True)
+    ctx.cov["streams"]["S-repro-replay"] = {"traces": ran, "conclusive": conclusive, "processes": 3 * ran,
+                                            "ended_normally": normal, "fewest_rows_in_a_trace": minrows}
+    ctx.cov["evaluations"] += 3 * ran
+
+
 # ------------------------------------------------------------------------------------------------- the check
 def run(ctx):
     import frag_repro
@@ -444,6 +540,12 @@ def run(ctx):
     dist["worlds_by_status(a/b/traced)"] = status
     dist["worlds_with_feature"] = feat
     dist["policies"] = {p: sum(1 for w in worlds if w["policy"] == p) for p in ("EDF", "FIFO", "LSF")}
+
+    # ---- S-repro-replay: the trace-replay path (data/alibaba_loader.py), two hash salts per generated trace
+    ctx.rules.append("S-repro-replay: generated Alibaba-style traces (2-4 DAGs of 3-6 tasks, joins, tasks listed before their parents) "
+                     "replayed by `python main.py --execution_mode=replay --replay_trace=alibaba` (EDF/FIFO/LSF, poisson arrivals, "
+                     "deadline and runtime variance) as three fresh processes with different PYTHONHASHSEED; traces must be identical")
+    replay_stream(ctx, 4 if ctx.tier == "quick" else 24)
 
     # ---- S-tape
     cases, id_cases, where = [], [], []
